@@ -13,5 +13,8 @@ for prof in safety independence constructors metadata; do
   "$D" session --profile $prof --base "$BASE" --from 0 --to $((PER*PARTS)) | grep -E '^RUN|^VIOL' | sort -t= -k2 -n >"$T/one"
   ( for j in $(seq 0 $((PARTS-1))); do "$D" session --profile $prof --base "$BASE" --from $((j*PER)) --to $((j*PER+PER)) & done; wait ) | grep -E '^RUN|^VIOL' | sort -t= -k2 -n >"$T/many"
   if cmp -s "$T/one" "$T/many"; then echo "$prof: $((PER*PARTS)) runs identical (1 process vs $PARTS concurrent processes)"; else echo "$prof: DIVERGED"; diff "$T/one" "$T/many" | head -4; rc=1; fi
+  # and the binary built with the profile users ship executes the same runs the same way
+  "$HERE/target/sim/shipped/dsim" session --profile $prof --base "$BASE" --from 0 --to $((PER*PARTS)) | grep -E '^RUN|^VIOL' | sort -t= -k2 -n >"$T/shipped"
+  if cmp -s "$T/one" "$T/shipped"; then echo "$prof: $((PER*PARTS)) runs identical (checked-profile vs shipped-profile binary)"; else echo "$prof: DIVERGED between build profiles"; diff "$T/one" "$T/shipped" | head -4; rc=1; fi
 done
 exit $rc
